@@ -1329,14 +1329,16 @@ def _scenario(seed: int, kind: str):
         after = r.choice(["group", "group", "filter", "mutate"])
         last = g.fresh_t()
         other = "a" if variant == "const" else "b"
+        # the column named by the reference the user still holds from *before* the union (D85), by the union's own, or by name
+        kref = r.choice([{"c": "k"}, {"col": [l1, "k"]}, {"col": [u, "k"]}])
         if after == "group":
             gb = g.fresh_t()
-            S(id=gb, op="group_by", src=u, cols=[{"c": "k"}])
+            S(id=gb, op="group_by", src=u, cols=[kref])
             S(id=last, op="summarize", src=gb, cols=[["s", {"fn": "sum", "args": [{"c": other}]}], ["n", {"fn": "count_star", "args": []}]])
         elif after == "filter":
-            S(id=last, op="filter", src=u, preds=[{"fn": "greater_than", "args": [{"c": "k"}, {"lit": 1}]}])
+            S(id=last, op="filter", src=u, preds=[{"fn": "greater_than", "args": [kref, {"lit": 1}]}])
         else:
-            S(id=last, op="mutate", src=u, cols=[["w", {"fn": "sum", "args": [{"c": other}], "partition_by": [{"c": "k"}]}]])
+            S(id=last, op="mutate", src=u, cols=[["w", {"fn": "sum", "args": [{"c": other}], "partition_by": [kref]}]])
         S(id="x1", op="export", src=last, target="polars", ordered=False)
     elif kind == "scen_union_distinct":
         # `distinct=True` removes duplicates over the whole visible row, whatever later verbs still use: rows that agree on the
